@@ -28,7 +28,7 @@ type Scenario struct {
 	Bound    int // preemption bound, <0 = unbounded
 	Sample   any // printable description of the configuration
 	// Nontrivial reports whether the explored scenario is non-trivial given the number of distinct outcomes
-	Nontrivial func(outcomes int) bool
+	Nontrivial func(outcomes, executions, states int) bool
 	// Count lets the scenario add counters from each terminal state
 	Count func(o *obs.Obs, counters, maxima map[string]int)
 }
@@ -39,7 +39,7 @@ func init() {
 
 // Observe builds the oracle's view of a finished simulated execution.
 func Observe(x *rt.Exec) *obs.Obs {
-	o := &obs.Obs{Sim: true, Logs: map[string][]obs.Event{}, Horizon: x.HitHorizon}
+	o := &obs.Obs{Sim: true, Logs: map[string][]obs.Event{}, Horizon: x.HitHorizon, Closed: x.Final}
 	for _, t := range x.Threads {
 		te := obs.ThreadEnd{ID: t.ID, Site: t.Site, Lib: t.Lib, Blocked: t.AtEnd}
 		if t.Panic != nil {
@@ -98,13 +98,19 @@ func (s *Scenario) Run(deadline time.Time) drv.Result {
 	}
 	nt := len(e.Outcomes) > 1
 	if s.Nontrivial != nil {
-		nt = s.Nontrivial(len(e.Outcomes))
+		nt = s.Nontrivial(len(e.Outcomes), e.Executions, len(e.States))
 	}
 	if nt {
 		r.Nontrivial = 1
 	}
 	if s.Sample != nil {
-		r.Sample = map[string]any{"case": s.Name, "config": s.Sample, "states": len(e.States), "executions": e.Executions, "distinct_outcomes": len(e.Outcomes)}
+		one := ""
+		for k := range e.Outcomes {
+			if one == "" || k < one {
+				one = k
+			}
+		}
+		r.Sample = map[string]any{"case": s.Name, "config": s.Sample, "states": len(e.States), "executions": e.Executions, "distinct_outcomes": len(e.Outcomes), "one_terminal_outcome": one}
 	}
 	for _, v := range e.Violations {
 		sig, msg := split(v.Msg)
